@@ -26,9 +26,10 @@ def main():
             "level_claimed": {
                 "category": info.get("level", "other"),
                 "text": info["explanation"] + " NOT DECIDED: " + info.get("not_decided", ""),
-                "design_ref": "DESIGN.md section 4, %s" % pid,
+                "design_ref": "DESIGN.md sections 4 (%s) and 8.2 (as built)" % pid,
             },
-            "level_note": "; ".join(info.get("trusted_base", [])) + ". " + "; ".join(info.get("assumptions", [])),
+            "level_note": "Decides the structural clauses named in the text, for all inputs/paths, not the numeric behaviour (see NOT DECIDED). Trusted: "
+                          + "; ".join(info.get("trusted_base", ["rustc's type checking and MIR; summaries of third-party callees"])) + ". Assumptions: " + "; ".join(info.get("assumptions", [])),
             "technique": info.get("technique", "static analysis: symbolic path evaluation of type-checked MIR (custom rustc_private driver) compared with a specification table"),
         })
     m = {
